@@ -129,7 +129,9 @@ func (s *ServerHandler) ServeHTTPWithUrlCtx(resp http.ResponseWriter, req *http.
 	ri := PathStrategy.GetRequestInfo(urlCtx, s.outPath)
 	//Log.Debugf("%+v", ri)
 
-	if filename == "" || (filetype != "m3u8" && filetype != "ts") || ri.StreamName == "" || ri.FileNameWithPath == "" {
+	// 注意，请求的文件必须位于hls的根目录之内（请求路径中可能带有".."）
+	if filename == "" || (filetype != "m3u8" && filetype != "ts") || ri.StreamName == "" || ri.FileNameWithPath == "" ||
+		!IsInsideRootOutPath(s.outPath, ri.FileNameWithPath) {
 		err = errors.New(fmt.Sprintf("invalid hls request. url=%+v, request=%+v", urlCtx, ri))
 		Log.Warnf(err.Error())
 		resp.WriteHeader(http.StatusFound)
